@@ -283,6 +283,28 @@ def order_twin(ctx, case, lines, kw, accepted, out, verdict):
                      bad.cls(), str(bad.exc)[:160], kw))
 
 
+def entry_twin(ctx, case, lines, kw, accepted, out, verdict, entry):
+    """the same text through another entry point (string, list of lines, file): the same verdict."""
+    if any("\n" in l or "\r" in l for l in lines) or not lines:
+        return
+    rng = random.Random(zlib.crc32(repr(lines).encode("utf8", "replace")) ^ 0x5A5A)
+    if rng.random() > 0.2:
+        return
+    other = rng.choice([e for e in ("list", "str", "file") if e != entry])
+    c2, v2, r2, vv2, used = accept_doc(ctx, lines, kw, other)
+    if used == entry:
+        return
+    ctx.count("entry_twins_judged")
+    acc2 = bool(c2 and v2)
+    if acc2 == accepted:
+        return
+    bad = out if not accepted else (r2 if not c2 else vv2)
+    ctx.violation("verdict-depends-on-entry-point/%s-vs-%s/%s" % (entry, used, bad.cls()),
+                  "the lines %r are %s through %s and %s through %s (%s: %s); kw=%r"
+                  % (lines, "accepted" if accepted else "refused", entry, "accepted" if acc2 else "refused", used,
+                     bad.cls(), str(bad.exc)[:160], kw))
+
+
 def accept_doc(ctx, lines, kw, entry):
     """(constructed?, explicit validation ok?, outcomes, entry point used) for a document."""
     if entry == "str":
@@ -376,5 +398,6 @@ def run(case, ctx):
     if verdict[0] != S.UNSPEC:
         ctx.nontriv(case)
     order_twin(ctx, case, lines, kw, bool(constructed and validated), r if not constructed else v, verdict)
+    entry_twin(ctx, case, lines, kw, bool(constructed and validated), r if not constructed else v, verdict, entry)
     ctx.add("doc_reasons", "%s:%s" % (verdict[0], reason))
     ctx.sample(case)
